@@ -14,6 +14,9 @@ Decided clauses:
         oversize guard's margin covers everything added afterwards (canary, page rounding, extra
         pages), so the mapping size cannot wrap (R17.4-margin); each sodium_mprotect_* applies its
         own PROT_* constant to the stored region.
+  R17.5 a protection change never touches the region: on every path of _sodium_mprotect the only memory access through the caller's
+        pointer or the recomputed region start is the read of the size word in the header page (unprotected_ptr - 2 * page_size);
+        the canary lies inside the region and may be inaccessible.
 NOT decided: that a protected page faults (OS), protection-transition histories.
 """
 from .. import build
@@ -287,8 +290,44 @@ def run(ctx, chk):
             src = [e for e in p.calls("memcpy") if lin(e.args[1], m) == ({U[0].res: 1, PS: -2}, 0) and e.args[2] == C(8, 64)]
             ld = [e for e in p.events if e.kind == "load" and e.res == cbs[0].args[1]]
             ok = bool(src) and bool(ld) and ld[0].addr == src[0].args[0]
+            if not ok and ld:
+                # the size word read with a typed load instead of memcpy
+                ok = ld[0].size == 8 and lin(ld[0].addr, m) == ({U[0].res: 1, PS: -2}, 0)
         chk.ob("R17.4", mp, "protection callback is applied to (unprotected_ptr, stored unprotected_size) and its status returned", ok,
                loc=mp.loc(p.end_iid), path=None if ok else p, key="R17.4 _sodium_mprotect region")
+    # ---- R17.5 changing the protection never touches the region itself --------------------------------------------------------
+    # The user region (with its canary) may be PROT_NONE when a protection call arrives; the only memory _sodium_mprotect may
+    # read is the size word in the read-only header page two pages below. Any other access through the caller's pointer or
+    # through the recomputed region start faults on a region that was made inaccessible - "reversible in any order" is lost.
+    n175 = 0
+    for p in cm.paths(prog, mp):
+        if p.kind != "ret":
+            continue
+        m = canon(p)
+        U = [c for c in p.calls("_unprotected_ptr_from_user_ptr") if c.args[0] == ("arg", 0)]
+        ures = U[0].res if U else None
+        for e in p.events:
+            tgt = []
+            if e.kind in ("load", "store"):
+                tgt.append(e.addr)
+            elif e.kind == "call":
+                if e.callee_name() == "_unprotected_ptr_from_user_ptr" or (e.callee[0] == "ind" and e.callee[1] == ("arg", 1)):
+                    continue
+                tgt += [a for a in e.args if isinstance(a, tuple)]
+            for a in tgt:
+                r = T.root(a)
+                if r == ("arg", 0):
+                    bad = True
+                elif ures is not None and r == ures:
+                    bad = lin(a, m) != ({ures: 1, PS: -2}, 0)
+                else:
+                    continue
+                n175 += 1
+                chk.ob("R17.5", mp, "a protection change reads nothing but the size word of the header page", not bad, loc=mp.loc(e.iid),
+                       path=p if bad else None, detail="" if not bad else "%s at %s goes through %s: the region (canary included) may be "
+                       "PROT_NONE at this point" % ((e.callee_name() or "call") if e.kind == "call" else e.kind, mp.loc(e.iid), T.show(a, mp)),
+                       key="R17.5 _sodium_mprotect touches-region")
+    chk.floor("R17.5", "memory accesses of _sodium_mprotect relative to the region", n175, 1)
     want = {"sodium_mprotect_noaccess": ("_mprotect_noaccess", kp["PROT_NONE"]),
             "sodium_mprotect_readonly": ("_mprotect_readonly", kp["PROT_READ"]),
             "sodium_mprotect_readwrite": ("_mprotect_readwrite", kp["PROT_READ"] | kp["PROT_WRITE"])}
